@@ -43,6 +43,18 @@ TR = 'chainables.transform'
 def run(ctx: Ctx):
   for r in (r1, r2, r3, r4, r5, r6):
     ctx.guard(r)
+  from mlmverif.props import c05
+  from mlmverif.props._queue import model as qmodel
+  ctx.include('R-C12-7', '"the first error reaches the caller, iteration stops'
+              ' and helper threads end" with threads: the failure is stored'
+              ' before the stop is announced and both queue sides are woken'
+              ' (R-C05-1, R-C05-2)', _c05_shared, qmodel(ctx), min_instances=6)
+
+
+def _c05_shared(sub, m):
+  from mlmverif.props import c05
+  c05.r1(sub, m)
+  c05.r2(sub, m)
 
 
 def r1(ctx: Ctx):
